@@ -96,7 +96,7 @@ def strategy(tier):
         g = draw(gen.planar_graph(max_nodes=sz["max_nodes"], dup_locations=dup))
         kind = draw(st.sampled_from(["exact", "exact", "repeat", "walk", "sparse", "outlier", "random"]))
         t = draw(gen.trace_on(g, max_len=sz["max_len"], kinds=[kind]))
-        cfg = draw(gen.config())
+        cfg = draw(gen.config(families=base.FAMILIES4))
         if draw(st.integers(0, 3)) == 0:
             cfg["obs_noise"] = draw(st.sampled_from([0.01, 100.0, 0.05, 5.0]))
         metric = draw(st.sampled_from(["planar", "planar", "latlon"]))
